@@ -344,7 +344,7 @@ def run(run):
     rng = run.rng('c14')
     try:
         n = 0
-        reps = 60 if thorough else 10
+        reps = 160 if thorough else 10
         for origin in ORIGINS:
             for final_mode in ('none', 'false', 'returns', 'raises',
                                'reconnects'):
